@@ -54,6 +54,13 @@ type GRun struct {
 	StubPanic string               `json:"stub_panic,omitempty"` // Name|Generate|CSRs|AddCertsToAgent of the selected stub
 	StubCSRs  int                  `json:"stub_csrs"`            // CSRs per agent key of stub handlers
 	AdvanceS  int64                `json:"advance_s"`
+	// further client claims carried by the command text: none of them may influence the signing request
+	Touch2SSH   bool   `json:"touch2ssh,omitempty"`
+	Firefighter bool   `json:"firefighter,omitempty"`
+	SudoHosts   string `json:"sudo_hosts,omitempty"`
+	SudoTime    int    `json:"sudo_time,omitempty"`
+	SigAlgo     int    `json:"sig_algo,omitempty"`
+	Exts        bool   `json:"exts,omitempty"`
 }
 
 // GPlan is one world: users, configuration, agent content and a run history.
@@ -157,6 +164,16 @@ func genRun(r *sim.Rng, p *GPlan, faulty bool, odd bool) GRun {
 	}
 	if r.Bool(0.12) {
 		run.Policy = "NSOK"
+	}
+	if r.Bool(0.35) {
+		run.Touch2SSH = r.Bool(0.6)
+		run.Firefighter = r.Bool(0.4)
+		if r.Bool(0.5) {
+			run.SudoHosts = pick(r, []string{"h1.example.com", "h1,h2,h3", "*"})
+			run.SudoTime = pick(r, []int{0, 5, 60, 100000})
+		}
+		run.SigAlgo = pick(r, []int{0, 3, 4, 10, 16})
+		run.Exts = r.Bool(0.5)
 	}
 	if r.Bool(0.1) {
 		run.HardKey = true
